@@ -54,6 +54,7 @@ struct Thread
   void* arg = nullptr;
   uint64_t yields = 0;
   uint32_t consec_clock = 0;
+  uint8_t last_kind = 0;
   int64_t prio = 0;
   uint64_t run_streak = 0;
   AllocCounters ac;
@@ -333,6 +334,7 @@ Thread* choose(Thread* me, bool can_continue, uint8_t kind)
 void reschedule(uint8_t kind)
 {
   Thread* me = t_self;
+  me->last_kind = kind;
   bool const can_continue = (me->state == READY);
   g_in_sched = true;
   Thread* next = choose(me, can_continue, kind);
@@ -379,6 +381,10 @@ void check_stalls(Thread* me, uint8_t kind)
       continue;
     }
     if (s.kind != 0 && s.kind != kind)
+    {
+      continue;
+    }
+    if (s.prev_kind != 0 && s.prev_kind != me->last_kind)
     {
       continue;
     }
@@ -612,17 +618,17 @@ Stats const& stats()
   return g_stats;
 }
 
-void add_stall(int thread, uint8_t kind, uint32_t nth, uint64_t duration_ns)
+void add_stall(int thread, uint8_t kind, uint32_t nth, uint64_t duration_ns, uint8_t prev_kind)
 {
   if (g_nstalls < 64)
   {
-    g_stalls[g_nstalls++] = Stall{thread, kind, nth ? nth : 1, duration_ns, false, 0};
+    g_stalls[g_nstalls++] = Stall{thread, kind, prev_kind, nth ? nth : 1, duration_ns, false, 0};
   }
 }
 
-void arm_stall(int thread, uint8_t kind, uint32_t nth, uint64_t duration_ns)
+void arm_stall(int thread, uint8_t kind, uint32_t nth, uint64_t duration_ns, uint8_t prev_kind)
 {
-  add_stall(thread, kind, nth, duration_ns);
+  add_stall(thread, kind, nth, duration_ns, prev_kind);
 }
 
 void set_abandon_handler(AbandonHandler h) { g_abandon = h; }
